@@ -575,7 +575,8 @@ func GenFlattenCase(d *D, cfg BundleCfg) *FlattenCase {
 		resps[n] = r
 	}
 	paths := O{}
-	pathPool := []string{"/pets", "/pets/{id}", "/"}
+	// "/a-b" and "/a_b" differ only by a character that name mangling drops
+	pathPool := []string{"/pets", "/pets/{id}", "/", "/a-b", "/a_b"}
 	if g.layer >= 1 {
 		pathPool = append(pathPool, "/a b/{x}")
 	}
